@@ -112,6 +112,8 @@ def main() -> int:
             assumptions.add(f"verus/{r.unit}: {a}")
         if r.status == "undecided":
             undecided.append(f"verus/{r.unit}: {r.reason}")
+        elif getattr(r, "lost", None):
+            undecided.append(f"verus/{r.unit}: anchor lost: " + "; ".join(r.lost))
         failed_fns = {}
         for f in r.failures:
             failed_fns.setdefault(f.function, []).append(f)
